@@ -80,6 +80,9 @@ class AccessMixin:
                 if attr == '__dict__' and o is not None:
                     return [('ok', st, SV('instdict', v))]
                 if ci is not None:
+                    for c in self.repo.mro(ci):
+                        if attr in c.nested:
+                            return [('ok', st, SV('class', c.nested[attr].name))]
                     m = self.repo.lookup_method(ci, attr)
                     if m is not None:
                         if m.kind == 'staticmethod':
@@ -117,7 +120,7 @@ class AccessMixin:
             if attr == '__class__':
                 return [('ok', st, sv_ref(Z.klass(v.v)))]
             return self.prim(st, 'getattr', [v, sv_str(attr)])
-        if k == 'instdict':
+        if k in ('instdict', 'super'):
             return [('ok', st, SV('method', (v, attr)))]
         raise Unsupported('attribute %s of %r' % (attr, v))
 
